@@ -7,6 +7,8 @@
 import OttoVerif.Base.Proto
 import OttoVerif.C04.Spec
 import OttoVerif.C04.Early
+import OttoVerif.C04.Positions
+import OttoVerif.C03.Driver
 namespace OttoVerif.C04.Driver
 open OttoVerif.C04 OttoVerif.Proto
 
@@ -107,8 +109,15 @@ def handleTree (srcHex dump : String) : String :=
     model ++ " " ++ spec ++ " " ++ (if devs.isEmpty then "-" else ",".intercalate devs)
   | _ => "bad-dump bad-dump -"
 
+/-- pos <hole> <srchex> <tokens of the hole content, then EOF>: accept / reject of the whole program, decided at the hole -/
+def handlePos (hole toks : String) : String :=
+  match OttoVerif.C03.Driver.toks? toks with
+  | some ts => Pos.verdict (Pos.model hole ts) ++ " " ++ Pos.verdict (Pos.spec hole ts) ++ " -"
+  | none => "bad-request bad-request -"
+
 def handle (ws : List String) : String :=
   match ws with
+  | ["pos", hole, _src, toks] => handlePos hole toks
   | ["tree", src, dump] => handleTree src dump
   | ["junk", _, _] => "total total -"
   | "early" :: rest => Early.handle rest
